@@ -158,6 +158,10 @@ func runTrustStoreFS() int {
 		}
 		must(os.WriteFile(filepath.Join(x509dir, "decoy-in-x509.crt"), pemOf(pki.decoy.Certs[0]), 0644))
 		typ := in.Type
+		if typ == "bogus" {
+			// an unknown type: something else, or a near miss of a known one (types are matched exactly); the directory exists
+			typ = []string{"bogus", "CA", "Ca", "ca ", "signingauthority", "TSA", "x509"}[mix(*flagSeed, c.ID, "typ")%7]
+		}
 		nameStr := map[string]string{"plain": "acme", "dotted": "acme.v2-x_y", "withSep": "a/b", "dot": ".", "dotdot": "..", "empty": "", "unicode": "caf\u00e9"}[in.Name]
 		var want []*x509.Certificate
 		// the store directory itself (only meaningful for a usable type and a plain name)
